@@ -81,6 +81,35 @@ static LAST_PANIC: Mutex<Option<String>> = Mutex::new(None);
 /// (path of the abort note, index of the execution in flight): written by the panic hook, so
 /// that a panic that cannot unwind (inside an `extern "C"` runtime entry) still leaves a trace
 static ABORT_NOTE: Mutex<(Option<String>, i64)> = Mutex::new((None, -1));
+/// Number of executions started so far (watchdog: an execution that makes no scheduling
+/// decision and never ends - an endless loop inside the real code - stops this counter).
+static STARTED: std::sync::atomic::AtomicU64 = std::sync::atomic::AtomicU64::new(0);
+
+/// A real OS thread outside the simulation: if no execution starts or ends for `secs` seconds
+/// the process is inside one execution that does not come back to the scheduler. The abort
+/// note (index in flight) is written and the process aborts; the orchestrator turns that into
+/// a violation of class "abort" with the scenario of that index.
+fn start_watchdog(secs: u64) {
+    std::thread::spawn(move || {
+        let mut last = STARTED.load(std::sync::atomic::Ordering::Relaxed);
+        let mut since = std::time::Instant::now();
+        loop {
+            std::thread::sleep(std::time::Duration::from_millis(500));
+            let now = STARTED.load(std::sync::atomic::Ordering::Relaxed);
+            if now != last {
+                last = now;
+                since = std::time::Instant::now();
+            } else if now > 0 && since.elapsed().as_secs() >= secs {
+                if let Ok(note) = ABORT_NOTE.try_lock() {
+                    if let (Some(path), idx) = (&note.0, note.1) {
+                        let _ = std::fs::write(path, format!("{}\nhang: the execution made no progress for {} s (an endless loop without a scheduling point inside the code under test)\n", idx, secs));
+                    }
+                }
+                std::process::abort();
+            }
+        }
+    });
+}
 
 pub fn install_panic_hook() {
     std::panic::set_hook(Box::new(|info| {
@@ -123,6 +152,7 @@ pub fn classify(msg: &str) -> String {
 }
 
 pub fn run_one<S: Scenario>(scenario: &S, spec: ExecSpec, stats: Arc<Stats>, keep_decisions: bool) -> Outcome {
+    STARTED.fetch_add(1, std::sync::atomic::Ordering::Relaxed);
     let record = Arc::new(Mutex::new(ExecRecord::default()));
     let sched = SimScheduler::single(spec.clone(), record.clone(), keep_decisions);
     let runner = shuttle::Runner::new(sched, sched::config(S::stack_size(), Some(S::max_steps())));
@@ -233,6 +263,8 @@ pub fn main_for<S: Scenario>() {
     let stats = Arc::new(Stats::new(S::probe_names().len(), S::fault_names().len()));
 
     if let Some(path) = arg(&args, "--replay") {
+        // a replayed hang aborts after the watchdog period (signal = reproduced)
+        start_watchdog(arg(&args, "--watchdog-s").map(|s| s.parse().unwrap()).unwrap_or(30));
         let text = std::fs::read_to_string(&path).expect("cannot read replay file");
         let rep: Replay<S> = serde_json::from_str(&text).expect("bad replay file");
         let policy = Policy::parse(&rep.policy).expect("bad policy");
@@ -261,6 +293,7 @@ pub fn main_for<S: Scenario>() {
     if let Some(p) = &out_path {
         ABORT_NOTE.lock().unwrap().0 = Some(format!("{}.abort", p));
     }
+    start_watchdog(arg(&args, "--watchdog-s").map(|s| s.parse().unwrap()).unwrap_or(30));
     if let Some(idx) = arg(&args, "--emit-scenario") {
         // write the (unexecuted) replay object of one index: used when an execution aborted
         let index: u64 = idx.parse().unwrap();
@@ -354,6 +387,7 @@ pub fn main_for<S: Scenario>() {
             if let Ok(mut note) = ABORT_NOTE.try_lock() {
                 note.1 = index as i64;
             }
+            STARTED.fetch_add(1, std::sync::atomic::Ordering::Relaxed);
             let mut wl = Prng::stream(seed, "workload", index);
             let scenario = S::generate(&mut wl);
             let mut spec = spec_for(seed, index, &scenario);
